@@ -39,7 +39,8 @@ class Ref:
         self.H = {}
         self.E = {}
         self.armed = {}
-        self.P = []          # rows: dict(kind,k,v,h,ok,held); row id = index + 1
+        self.P = []          # rows: dict(kind,k,v,h,hr,ok,held); row id = index + 1; hr = id of the ephemeron row in
+        #                      whose value the handle of this row lies (0: held by the mutator / node h / map h)
         self.M = []          # maps: dict(h, held)
         self.res_ever = set()
 
@@ -59,7 +60,23 @@ class Ref:
             return False
         if r["kind"] == "ent":
             return self.map_live(self.M, r["h"], R)
+        if r["hr"]:
+            y = P[r["hr"] - 1]
+            return y["ok"] and y["k"] in R and self.row_live(P, r["hr"] - 1, R)
         return r["h"] == 0 or r["h"] in R
+
+    def access(self, x):
+        """GcSpec!Access (x = row id)."""
+        if not (1 <= x <= len(self.P)) or not self.P[x - 1]["held"]:
+            return False
+        r = self.P[x - 1]
+        if r["hr"]:
+            return self.P[r["hr"] - 1]["ok"] and self.access(r["hr"])
+        return self.holder_ok(r["h"])
+
+    def mut_rows(self):
+        return {x + 1 for x, r in enumerate(self.P)
+                if r["kind"] in ("weak", "eph") and r["held"] and r["h"] == 0 and r["hr"] == 0}
 
     def reach(self, H, P):
         R = {n for n in self.nodes if H[n] > 0}
@@ -129,34 +146,38 @@ class Ref:
             return {"op": op, "a": o["a"], "b": o["b"]}
         if op == "weak":
             need(self.held(o["a"]) and o["w"] == len(self.P) + 1)
-            self.P.append(dict(kind="weak", k=o["a"], v=0, h=0, ok=True, held=True))
+            self.P.append(dict(kind="weak", k=o["a"], v=0, h=0, hr=0, ok=True, held=True))
             return {"op": op, "w": o["w"], "a": o["a"]}
         if op == "upgrade":
             x = o["w"]
-            need(1 <= x <= len(self.P) and self.P[x - 1]["kind"] == "weak" and self.P[x - 1]["held"])
+            need(1 <= x <= len(self.P) and self.P[x - 1]["kind"] == "weak" and self.access(x))
             r = self.P[x - 1]
             if r["ok"]:
                 self.H[r["k"]] += 1
             return {"op": op, "w": x, "t": r["k"], "r": r["k"] if r["ok"] else 0}
         if op == "dropw":
             x = o["w"]
-            need(1 <= x <= len(self.P) and self.P[x - 1]["kind"] == "weak" and self.P[x - 1]["held"])
+            need(1 <= x <= len(self.P) and self.P[x - 1]["kind"] == "weak" and self.P[x - 1]["held"]
+                 and self.P[x - 1]["hr"] == 0)
             self.P[x - 1]["held"] = False
             return {"op": op, "w": x}
         if op == "eph":
-            need(self.held(o["k"]) and self.held(o["v"]) and self.holder_ok(o["h"]) and o["e"] == len(self.P) + 1)
-            self.P.append(dict(kind="eph", k=o["k"], v=o["v"], h=o["h"], ok=True, held=True))
-            return {"op": op, "e": o["e"], "k": o["k"], "v": o["v"], "h": o["h"]}
+            ws = sorted(o.get("ws", []))
+            need(self.held(o["k"]) and (o["v"] == 0 or self.held(o["v"])) and self.holder_ok(o["h"])
+                 and o["e"] == len(self.P) + 1 and set(ws) <= self.mut_rows() and len(set(ws)) == len(ws))
+            for x in ws:
+                self.P[x - 1]["hr"] = o["e"]
+            self.P.append(dict(kind="eph", k=o["k"], v=o["v"], h=o["h"], hr=0, ok=True, held=True))
+            return {"op": op, "e": o["e"], "k": o["k"], "v": o["v"], "h": o["h"], "ws": ws}
         if op == "ephval":
             x = o["e"]
-            need(1 <= x <= len(self.P) and self.P[x - 1]["kind"] == "eph" and self.P[x - 1]["held"]
-                 and self.holder_ok(self.P[x - 1]["h"]))
+            need(1 <= x <= len(self.P) and self.P[x - 1]["kind"] == "eph" and self.access(x))
             r = self.P[x - 1]
-            return {"op": op, "e": x, "v": r["v"], "r": r["v"] if r["ok"] else 0}
+            return {"op": op, "e": x, "v": r["v"], "r": r["v"] if r["ok"] else 0, "s": 1 if r["ok"] else 0}
         if op == "drope":
             x = o["e"]
             need(1 <= x <= len(self.P) and self.P[x - 1]["kind"] == "eph" and self.P[x - 1]["held"]
-                 and self.P[x - 1]["h"] == 0)
+                 and self.P[x - 1]["h"] == 0 and self.P[x - 1]["hr"] == 0)
             self.P[x - 1]["held"] = False
             return {"op": op, "e": x}
         if op == "wm":
@@ -167,7 +188,7 @@ class Ref:
             need(self.map_ok(o["m"]) and self.held(o["k"]) and self.held(o["v"]))
             for x in self.entry_of(o["m"], o["k"]):
                 self.P[x]["held"] = False
-            self.P.append(dict(kind="ent", k=o["k"], v=o["v"], h=o["m"], ok=True, held=True))
+            self.P.append(dict(kind="ent", k=o["k"], v=o["v"], h=o["m"], hr=0, ok=True, held=True))
             return {"op": op, "m": o["m"], "k": o["k"], "v": o["v"]}
         if op == "wmrem":
             need(self.map_ok(o["m"]) and self.held(o["k"]))
@@ -206,13 +227,19 @@ class Ref:
         P1 = [dict(r, ok=r["ok"] and r["k"] in R1 and self.row_live(P, x, R1)) for x, r in enumerate(P)]
         R2 = self.reach(H2, P1)
         M2 = [dict(m, held=m["held"] and (m["h"] == 0 or m["h"] in R2)) for m in M]
-        P2 = []
-        for x, r in enumerate(P1):
+        def held_after(x):
+            r = P1[x]
+            if not r["held"]:
+                return False
             if r["kind"] == "ent":
-                held = r["held"] and r["ok"] and M2[r["h"] - 1]["held"]
-            else:
-                held = r["held"] and (r["h"] == 0 or r["h"] in R2)
-            P2.append(dict(r, held=held))
+                return r["ok"] and M2[r["h"] - 1]["held"]
+            if r["hr"]:
+                return P1[r["hr"] - 1]["ok"] and held_after(r["hr"] - 1)
+            return r["h"] == 0 or r["h"] in R2
+        P2 = [dict(r, held=held_after(x)) for x, r in enumerate(P1)]
+        # rows lying in a value (and the mutator could get at) that this collection kept / cleared
+        self.last_nested = [(r["ok"], P1[x]["ok"]) for x, r in enumerate(P) if r["hr"] and r["held"] and r["ok"]
+                            and P[r["hr"] - 1]["held"]]
         freed = nodes - R2
         res = U & R2
         self.fired = {a: self.armed[a] for a in fire}
@@ -251,7 +278,7 @@ class Ref:
         for n in self.nodes:
             self.H[n] = 0
         for r in self.P:
-            if r["kind"] in ("weak", "eph") and r["h"] == 0:
+            if r["kind"] in ("weak", "eph") and r["h"] == 0 and r["hr"] == 0:
                 r["held"] = False
         for m in self.M:
             if m["h"] == 0:
@@ -268,17 +295,22 @@ class Ref:
 
 
 KEYS = {"alloc": ("n", "k"), "clone": ("a",), "droph": ("a",), "link": ("a", "b"), "unlink": ("a", "b"),
-        "load": ("a", "b"), "weak": ("w", "a"), "upgrade": ("w",), "dropw": ("w",), "eph": ("e", "k", "v", "h"),
+        "load": ("a", "b"), "weak": ("w", "a"), "upgrade": ("w",), "dropw": ("w",), "eph": ("e", "k", "v", "h", "ws"),
         "ephval": ("e",), "drope": ("e",), "wm": ("m", "h"), "wmins": ("m", "k", "v"), "wmrem": ("m", "k"),
         "wmget": ("m", "k"), "dropwm": ("m",), "arm": ("a", "t"), "collect": ()}
 
 
 def bare(o):
-    return dict({"op": o["op"]}, **{k: o[k] for k in KEYS[o["op"]]})
+    return dict({"op": o["op"]}, **{k: (sorted(o.get("ws", [])) if k == "ws" else o[k]) for k in KEYS[o["op"]]})
 
 
 def short(ops):
-    return "; ".join(" ".join([o["op"]] + [str(o[k]) for k in KEYS[o["op"]]]) for o in ops)
+    """One line per history; `eph e k v h [rows moved into the value]` (the list is omitted when empty)."""
+    def f(o, k):
+        if k == "ws":
+            return "[" + ",".join(map(str, sorted(o.get("ws", [])))) + "]" if o.get("ws") else ""
+        return str(o[k])
+    return "; ".join(" ".join(x for x in [o["op"]] + [f(o, k) for k in KEYS[o["op"]]] if x) for o in ops)
 
 
 def expect(ops, leaky=()):
@@ -333,7 +365,13 @@ def renumber(ops):
         if op == "wm":
             mm[o["m"]] = len(mm) + 1
         for k in KEYS[op]:
-            if k in ("n", "a", "b", "t") or (k in ("k", "v") and op != "alloc"):
+            if k == "ws":
+                if any(x not in rm for x in o.get("ws", [])):
+                    return None
+                o["ws"] = sorted(rm[x] for x in o.get("ws", []))
+            elif k == "v" and op == "eph" and o[k] == 0:
+                pass
+            elif k in ("n", "a", "b", "t") or (k in ("k", "v") and op != "alloc"):
                 if o[k] not in nm:
                     return None
                 o[k] = nm[o[k]]
@@ -411,6 +449,11 @@ class Judge:
                         self.drift("weak row on a resurrected key answered differently from the model (allowed by the property)")
                         return None
                     return fail(i, "result", e, o.get("r"))
+            if "s" in e and o.get("s") != e["s"]:
+                if rowkey.get(e.get("e")) in ever:
+                    self.drift("weak row on a resurrected key answered differently from the model (allowed by the property)")
+                    return None
+                return fail(i, "Ephemeron::value is Some/None", e, o.get("s"))
             if e["op"] == "collect":
                 if sorted(o.get("fin", [])) != sorted(e["fin"]):
                     return fail(i, "finalised set", e, o)
@@ -443,6 +486,7 @@ class Judge:
 
 
 OPCOUNT = {}
+NESTED = {"kept": 0, "cleared": 0}     # weak rows lying in ephemeron values, per collection: kept / cleared by it
 
 
 def crosscheck(exp):
@@ -457,8 +501,12 @@ def crosscheck(exp):
                 OPCOUNT["collect:fin"] = OPCOUNT.get("collect:fin", 0) + 1
             if e["res"]:
                 OPCOUNT["collect:res"] = OPCOUNT.get("collect:res", 0) + 1
-        elif k in ("upgrade", "ephval") and e["r"] == 0:
+        elif k == "upgrade" and e["r"] == 0 or k == "ephval" and e["s"] == 0:
             OPCOUNT[k + ":none"] = OPCOUNT.get(k + ":none", 0) + 1
+        if k == "eph" and e.get("ws"):
+            OPCOUNT["eph:ws"] = OPCOUNT.get("eph:ws", 0) + 1
+        if k in ("upgrade", "ephval") and ref.P[e["w" if k == "upgrade" else "e"] - 1]["hr"]:
+            OPCOUNT[k + ":nested"] = OPCOUNT.get(k + ":nested", 0) + 1
         try:
             mine = ref.apply(bare(e))
         except (Invalid, KeyError, IndexError) as x:
@@ -471,6 +519,8 @@ def crosscheck(exp):
             retained_unrooted = {n for n in ref.last_R2 if ref.H[n] == 0}
             if it & (ref.last_freed | retained_unrooted):
                 nontrivial = True
+            for before, after in ref.last_nested:
+                NESTED["kept" if after else "cleared"] += 1
     return ref, nontrivial
 
 
@@ -562,8 +612,9 @@ def shape_history(rec):
     ops += [{"op": "link", "a": a, "b": b} for a, b in sorted(map(tuple, s["edges"]))]
     if s["mh"] != 99:
         ops.append({"op": "wm", "m": 1, "h": s["mh"]})
-    for i, (kind, k, v, h) in enumerate(s["rows"], 1):
-        ops.append({"op": "weak", "w": i, "a": k} if kind == "weak" else {"op": "eph", "e": i, "k": k, "v": v, "h": h})
+    for i, (kind, k, v, h, hr) in enumerate(s["rows"], 1):
+        ws = [j for j, r in enumerate(s["rows"], 1) if r[4] == i]     # earlier rows moved into the value of this one
+        ops.append({"op": "weak", "w": i, "a": k} if kind == "weak" else {"op": "eph", "e": i, "k": k, "v": v, "h": h, "ws": ws})
     for k, v in s["ents"]:
         ops.append({"op": "wmins", "m": 1, "k": k, "v": v})
     ops += [{"op": "droph", "a": n} for n in range(1, K + 1) if n not in s["roots"]]
@@ -577,17 +628,38 @@ def shape_history(rec):
         raise vlib.ToolError(f"oracle disagreement on shape {json.dumps(s)}: TLC {theirs} {rec['ok']} Ref {mine} {[r['ok'] for r in ref.P]}")
     probes = []
     for i, r in enumerate(ref.P, 1):
-        if r["kind"] == "eph" and r["held"] and ref.holder_ok(r["h"]):
+        if r["kind"] == "eph" and ref.access(i):
             probes.append({"op": "ephval", "e": i})
     if ref.M and ref.map_ok(1):
         probes += [{"op": "wmget", "m": 1, "k": k} for k in sorted(ref.nodes) if ref.held(k)]
     for i, r in enumerate(ref.P, 1):
-        if r["kind"] == "weak" and r["held"]:
+        if r["kind"] == "weak" and ref.access(i):
             probes.append({"op": "upgrade", "w": i})
     probes.append({"op": "collect"})
     for o in probes:
         exp.append(ref.apply(o))
     return exp
+
+
+CHAINS = {"CAB": 0, "ACB": 0, "ABC": 0}
+
+
+def note_chain(s):
+    """Counts the shapes that contain a chain C -> B -> A: a WeakGc A on a rooted node whose handle lies in the value
+    of a mutator-held ephemeron B, B's value holds no Gc handle, B's key is not rooted and is the value of a
+    mutator-held ephemeron C with a rooted key; by allocation order of C relative to A < B."""
+    rows, roots = s["rows"], set(s["roots"])
+    for a, ra in enumerate(rows):
+        if ra[0] != "weak" or ra[4] == 0 or ra[1] not in roots:
+            continue
+        b = ra[4] - 1
+        rb = rows[b]
+        if rb[2] != 0 or rb[3] != 0 or rb[4] != 0 or rb[1] in roots:
+            continue
+        for c, rc in enumerate(rows):
+            if c not in (a, b) and rc[0] == "eph" and rc[2] == rb[1] and rc[1] in roots and rc[3] == 0 and rc[4] == 0:
+                CHAINS["CAB" if c < a else "ACB" if c < b else "ABC"] += 1
+                return
 
 
 def run_tlc_job(module, cfg, workers, tags, timeout=3000, sink=None, **kw):
@@ -735,9 +807,9 @@ def run(tier, replay=None):
     quick = tier == "quick"
     pool = ThreadPoolExecutor(max_workers=2)
     # 1. model gate (invariants + refinement GcImpl => GcSpec), in the background while replays are generated
-    gate_cfgs = [(MC, "MCGcImpl_gate_quick.cfg")] if quick else \
+    gate_cfgs = [(MC, "MCGcImpl_gate_quick.cfg"), (IMPLSHAPES, "MCGcImplShapes_nest.cfg")] if quick else \
                 [(FULL, "MCGcImplFull_a.cfg"), (MC, "MCGcImpl_gate_thorough.cfg"), (MC, "MCGcImpl_gate_res.cfg"),
-                 (IMPLSHAPES, "MCGcImplShapes_gate.cfg")]
+                 (IMPLSHAPES, "MCGcImplShapes_gate.cfg"), (IMPLSHAPES, "MCGcImplShapes_nest_thorough.cfg")]
 
     def gates():
         out = []
@@ -745,6 +817,13 @@ def run(tier, replay=None):
             _, r = run_tlc_job(mod, cfg, 4, ())
             vlib.log(f"[gate] {cfg}: {r['distinct']} distinct states, {r['states']} transitions, {r['wall']:.0f}s")
             out.append((cfg, r))
+        if not quick:
+            # sensitivity of the gate: GcImpl with the fix-point of step 3 ending as soon as a pass enqueued nothing
+            # (definition override RescanShortcut <- TRUE) must be rejected
+            r = vlib.run_tlc(IMPLSHAPES, "MCGcImplShapes_shortcut.cfg", workers=4, timeout=3000)
+            if r["ok"] or not r.get("violation"):
+                raise vlib.ToolError("model gate: GcImpl with an early end of the pending-ephemeron fix-point was NOT rejected")
+            vlib.log(f"[gate] MCGcImplShapes_shortcut.cfg rejected as expected: {str(r['violation'])[:120]}")
         return out
     gate_f = pool.submit(gates)
     rep = Replayer(runner)
@@ -752,16 +831,19 @@ def run(tier, replay=None):
     # 2. history-exhaustive replays, 3. transition-exhaustive EDGE replays, 4. shape families
     if quick:
         jobs = [("hist", MC, "MCGcImpl_hist_quick.cfg", "REPLAY"), ("edge", MC, "MCGcImpl_edge_quick.cfg", "EDGE"),
-                ("shapes", SHAPES, "MCGcShapes_quick.cfg", "SHAPE")]
+                ("shapes", SHAPES, "MCGcShapes_quick.cfg", "SHAPE"), ("nest", SHAPES, "MCGcShapes_nest_quick.cfg", "SHAPE")]
     else:
         jobs = [("hist", MC, "MCGcImpl_hist_thorough.cfg", "REPLAY"), ("shapes", SHAPES, "MCGcShapes_thorough.cfg", "SHAPE"),
+                ("nest", SHAPES, "MCGcShapes_nest_thorough.cfg", "SHAPE"),
                 ("edge", MC, "MCGcImpl_edge_thorough_a.cfg", "EDGE"), ("edge", MC, "MCGcImpl_edge_thorough_b.cfg", "EDGE")]
     for label, mod, cfg, tag in jobs:
         n0 = [0]
 
         def sink(o, label=label, n0=n0):
             n0[0] += 1
-            rep.put(label, shape_history(o) if label == "shapes" else o)
+            if label == "nest":
+                note_chain(o["shape"])
+            rep.put(label, shape_history(o) if label in ("shapes", "nest") else o)
         _, r = run_tlc_job(mod, cfg, 4, (tag,), sink=sink)
         model_states += r["distinct"]
         model_trans += r["states"]
@@ -804,7 +886,16 @@ def run(tier, replay=None):
     floor = 5000 if quick else 100000
     if runner.nontrivial < floor:
         raise vlib.ToolError(f"vacuity guard: only {runner.nontrivial} non-trivial histories (< {floor})")
-    ck.assumptions += ["histories need a mutator handle on every node they name (nodes only reachable through the heap are "
+    ck.cov["nested_rows"] = dict(NESTED, chains=dict(CHAINS),
+                                 rule="per collection: weak rows whose handle lies in the value of an ephemeron the mutator "
+                                      "could get at, kept / cleared by it; chains = shapes with a WeakGc A in the value of "
+                                      "an ephemeron B (no Gc in the value) whose key lives only through the value of an "
+                                      "ephemeron C, by allocation order")
+    if min(NESTED.values()) < 10000 or min(CHAINS.values()) < 3 or rep.counts.get("nest", 0) < 30000:
+        raise vlib.ToolError(f"vacuity guard: nested weak rows are not exercised ({NESTED}, {CHAINS}, {rep.counts.get('nest', 0)} shapes)")
+    ck.assumptions += ["the value of an ephemeron is built when it is created (weak handles are moved in, at most one handle "
+                       "per WeakGc / Ephemeron box) and is immutable afterwards",
+                       "histories need a mutator handle on every node they name (nodes only reachable through the heap are "
                        "re-acquired with load / upgrade)",
                        "weak rows on keys that a finalizer resurrected are cleared in the model (as the code does); the "
                        "property leaves it open, a deviation there is reported as drift",
@@ -823,5 +914,7 @@ def action_coverage(opcount):
             "dropwm": "DropWm", "arm": "Arm", "collect": "StartCollect..ClearWeakMaps",
             "collect:fin": "Finalize/FinalizeWeak/Release (something unreachable)",
             "collect:res": "Finalize with an armed finalizer (resurrection)",
-            "upgrade:none": "Upgrade of a cleared WeakGc", "ephval:none": "EphValue of a cleared Ephemeron"}
+            "upgrade:none": "Upgrade of a cleared WeakGc", "ephval:none": "EphValue of a cleared Ephemeron",
+            "eph:ws": "MkEph moving weak handles into the value", "upgrade:nested": "Upgrade of a WeakGc in an ephemeron value",
+            "ephval:nested": "EphValue of an Ephemeron in an ephemeron value"}
     return [a for k, a in need.items() if opcount.get(k, 0) == 0]
